@@ -109,6 +109,28 @@ pub fn rle(b: &[u8]) -> Vec<Vec<i64>> {
     v
 }
 
+/// outcome of every encoder entry point on payload p, as events [-1, kind] (kind 1 ok, 3 out-of-memory, 8 panic,
+/// 12 runaway, 14 yielded a byte after the end): growable buffer, fixed buffers around the frame length, iterator
+/// drained and then polled 400 (or 70000) more times
+pub fn encoder_outcomes(p: &[u8]) -> Vec<Vec<i64>> {
+    let mut out: Vec<Vec<i64>> = vec![];
+    let k = |r: &Result<Vec<u8>, i64>| match r {
+        Ok(_) => 1,
+        Err(k) => *k,
+    };
+    out.push(vec![-1, k(&enc_buf_vec(p))]);
+    let fl = frame(p).len();
+    for n in ARRAYBUF_SIZES.iter().filter(|n| **n + 2 >= fl && **n <= fl + 2 || **n < 2) {
+        out.push(vec![-1, k(&enc_buf_n(*n, p))]);
+    }
+    let polls = if p.len() % 97 == 3 || p.is_empty() { 70000 } else { 400 };
+    match enc_iter(p, polls) {
+        Ok((_, somes)) => out.push(vec![-1, if somes == 0 { 1 } else { 14 }]),
+        Err(kind) => out.push(vec![-1, kind]),
+    }
+    out
+}
+
 pub fn payload_family(tier: &str, rng: &mut Rng) -> Vec<Vec<u8>> {
     let alpha = [0x1bu8, 0, 1, 0x1a, 0x55];
     let k = if tier == "thorough" { 8 } else { 6 };
@@ -189,7 +211,9 @@ pub fn cmd_encdec(tier: &str, out: &str, which: &str) {
         };
         put(1, enc_buf_vec(p));
         put(2, enc_buf_n(big, p));
-        let it = enc_iter(p, 5);
+        // poll the exhausted iterator far beyond any 8-bit (always) or 16-bit (some payloads) internal counter
+        let extra_polls = if p.len() % 97 == 3 || p.is_empty() { 70000 } else { 300 };
+        let it = enc_iter(p, extra_polls);
         let fused = match &it {
             Ok((_, s)) => *s as i64,
             Err(_) => -1,
